@@ -29,6 +29,9 @@ pub struct AofEngine {
     
     /// Is background rewrite in progress?
     rewrite_in_progress: Arc<Mutex<bool>>,
+    
+    /// Database of the last command written (None until the first append of this process)
+    last_db: Arc<Mutex<Option<usize>>>,
 }
 
 /// AOF configuration
@@ -89,6 +92,7 @@ impl AofEngine {
             config,
             last_fsync: Arc::new(Mutex::new(Instant::now())),
             rewrite_in_progress: Arc::new(Mutex::new(false)),
+            last_db: Arc::new(Mutex::new(None)),
         }
     }
     
@@ -142,13 +146,24 @@ impl AofEngine {
     }
     
     /// Append a command to the AOF
-    pub fn append_command(&self, command: &[RespFrame]) -> Result<()> {
+    pub fn append_command(&self, command: &[RespFrame], db: usize) -> Result<()> {
         if !self.config.enabled {
             return Ok(());
         }
         
         let mut writer_guard = self.writer.lock().unwrap();
         if let Some(writer) = writer_guard.as_mut() {
+            // The log is replayed from database 0: record every change of database
+            let mut last_db = self.last_db.lock().unwrap();
+            if *last_db != Some(db) {
+                let select = RespFrame::Array(Some(vec![
+                    RespFrame::bulk_string("SELECT"),
+                    RespFrame::bulk_string(db.to_string()),
+                ]));
+                serialize_resp_frame(&select, writer)?;
+                *last_db = Some(db);
+            }
+            
             // Serialize command as RESP array
             let frame = RespFrame::Array(Some(command.to_vec()));
             serialize_resp_frame(&frame, writer)?;
@@ -258,6 +273,7 @@ impl Clone for AofEngine {
             config: self.config.clone(),
             last_fsync: Arc::clone(&self.last_fsync),
             rewrite_in_progress: Arc::clone(&self.rewrite_in_progress),
+            last_db: Arc::clone(&self.last_db),
         }
     }
 }
